@@ -443,7 +443,12 @@ impl Node {
                 if let Some(store) = &mut self.store {
                     match store.update_from_data(ndata.metrics_details) {
                         Ok(_) => return Ok(()),
-                        Err(_) => return Err(RebirthReason::InvalidPayload),
+                        Err(StateUpdateError::InvalidValue) => {
+                            return Err(RebirthReason::InvalidPayload)
+                        }
+                        Err(StateUpdateError::UnknownMetric) => {
+                            return Err(RebirthReason::UnknownMetric)
+                        }
                     }
                 }
             }
